@@ -11,16 +11,21 @@ fn debug_sections(b: &[u8]) -> Vec<String> {
     decode::decode(b).map(|m| m.customs.iter().filter(|c| c.name.starts_with(".debug")).map(|c| c.name.clone()).collect()).unwrap_or_default()
 }
 
+/// the producers fields of a binary: those of every `producers` section, in order (a mutated input can
+/// carry the section twice; walrus reads both)
 fn producers_of(b: &[u8]) -> Option<Producers> {
     let m = decode::decode(b).ok()?;
-    let c = m.customs.iter().find(|c| c.name == "producers")?;
-    producers(&c.data).ok()
+    let mut all: Option<Producers> = None;
+    for c in m.customs.iter().filter(|c| c.name == "producers") {
+        all.get_or_insert_with(Vec::new).extend(producers(&c.data).ok()?);
+    }
+    all
 }
 
 /// an input producers section the reference decoder rejects (walrus warns and keeps what it read up to the
 /// error): nothing is demanded about its fields, only that walrus is recorded once
 fn producers_malformed(b: &[u8]) -> bool {
-    decode::decode(b).ok().and_then(|m| m.customs.iter().find(|c| c.name == "producers").map(|c| producers(&c.data).is_err())).unwrap_or(false)
+    decode::decode(b).map(|m| m.customs.iter().any(|c| c.name == "producers" && producers(&c.data).is_err())).unwrap_or(false)
 }
 
 /// Check the producers model: input fields preserved (order of fields and of values), walrus exactly once.
@@ -30,7 +35,10 @@ fn check_producers(input: Option<&Producers>, output: Option<&Producers>, input_
         None => return Err("no producers section in the output although generation is on".into()),
     };
     let walrus: Vec<&(String, String)> = output.iter().filter(|f| f.0 == "processed-by").flat_map(|f| f.1.iter()).filter(|v| v.0 == "walrus").collect();
-    if walrus.len() != 1 {
+    // an input that itself records walrus more than once (only possible with a repeated section, field or
+    // value name, which the producers convention forbids) is outside the exactly-once clause
+    let walrus_in_input = input.map(|p| p.iter().flat_map(|f| f.1.iter()).filter(|v| v.0 == "walrus").count()).unwrap_or(0);
+    if walrus.len() != 1 && !(walrus_in_input > 1 && !walrus.is_empty()) {
         return Err(format!("walrus is recorded {} times as processed-by: {:?}", walrus.len(), output));
     }
     for f in output {
@@ -68,8 +76,8 @@ pub fn run(c: &Case, rep: &mut Report) {
     if in_prod_bad {
         rep.count("inputs-with-malformed-producers-section", 1);
     }
-    // there is DWARF to carry only if .debug_info holds at least one unit header
-    let in_has_units = decode::decode(input).map(|m| m.customs.iter().any(|c| c.name == ".debug_info" && c.data.len() >= 11)).unwrap_or(false);
+    // there is DWARF to carry only if the reference reader finds at least one well-formed unit in the input
+    let in_has_units = decode::decode(input).ok().map(|m| matches!(wv_oracle::dwarfread::read(&m), Ok(Some(i)) if i.version != 0)).unwrap_or(false);
     let v_default = feat::validate(input, false);
     let v_stable = feat::validate(input, true);
     let mut ok_masks = 0;
